@@ -590,7 +590,25 @@ def check(prog, rep):
             ok = isinstance(g, ast.If) and src(g.test).replace(" ", "") in (f"np.all(np.isfinite({arg}))", f"np.isfinite({arg}).all()") and n in g.body
             rep.ob("R19.3", "_sanitize_derivatives", ok, "fast path returns the input only when every entry is finite" if ok else f"returns the input unchanged under `{src(g.test) if isinstance(g, ast.If) else 'no guard'}`, which does not imply all entries are finite", loc=f"{sf.module.rel}:{n.lineno}", detail="fast-path")
         elif isinstance(v, ast.Call) and dotted(v.func) == "np.nan_to_num":
-            kw = {k.arg: k.value for k in v.keywords}
+            kw = {k.arg: k.value for k in v.keywords if k.arg}
+            sasg = local_assignments(sf.node)
+            opaque = False
+            for k in v.keywords:
+                if k.arg is None:
+                    d_ = k.value
+                    if isinstance(d_, ast.Name) and len([x for x in sasg.get(d_.id, []) if isinstance(x, ast.AST)]) == 1:
+                        d_ = sasg[d_.id][0]
+                    if isinstance(d_, ast.Name):
+                        d_ = _module_value(sf.module, d_.id) or d_
+                    if isinstance(d_, ast.Dict) and all(isinstance(kk, ast.Constant) for kk in d_.keys):
+                        kw.update({kk.value: vv for kk, vv in zip(d_.keys, d_.values)})
+                    elif isinstance(d_, ast.Call) and dotted(d_.func) == "dict" and not d_.args and all(x.arg for x in d_.keywords):
+                        kw.update({x.arg: x.value for x in d_.keywords})
+                    else:
+                        opaque = True
+            if opaque:
+                rep.undecided(f"_sanitize_derivatives: the keyword arguments of `{src(v)[:60]}` are not visible")
+                continue
 
             def val(node):
                 if isinstance(node, ast.Constant):
@@ -605,10 +623,13 @@ def check(prog, rep):
             nanv, pos, neg = val(kw.get("nan")) if "nan" in kw else 0.0, val(kw.get("posinf")), val(kw.get("neginf"))
             import math
 
+            if (("posinf" in kw and pos is None) or ("neginf" in kw and neg is None) or ("nan" in kw and nanv is None)):
+                rep.undecided(f"_sanitize_derivatives: a replacement value of `{src(v)[:60]}` is not a constant this rule can evaluate")
+                continue
             ok = (v.args and src(v.args[0]) == arg and nanv == 0 and pos is not None and neg is not None and pos > 0 and math.isfinite(pos) and neg == -pos)
             rep.ob("R19.3", "_sanitize_derivatives", bool(ok), f"NaN -> {nanv}, +inf -> {pos}, -inf -> {neg}" if ok else f"replacement values are wrong: nan={nanv}, posinf={pos}, neginf={neg} (expected 0, +L, -L with L>0 finite)", loc=f"{sf.module.rel}:{n.lineno}", detail="replacement-values")
         else:
-            rep.ob("R19.3", "_sanitize_derivatives", False, f"unrecognised return {src(v)[:60]}", loc=f"{sf.module.rel}:{n.lineno}", detail="unknown-return")
+            rep.undecided(f"_sanitize_derivatives: return `{src(v)[:60]}` is not a form this rule reads")
     if nrets == 0:
         raise AnalysisError("sanitiser has no return")
 
